@@ -33,6 +33,7 @@ DEFAULT_ENV = {
     "p_configuring": 0.2,
     "enforce_walltime": False,
     "first_job_id": 8100000,
+    "p_suspend": 0.0,
 }
 
 
